@@ -308,7 +308,17 @@ fn labels(rng: &mut Rng, max: usize, size: Size) -> MplsLabelStack {
         Size::Mixed => 1 + rng.usize(max),
     }
     .max(1);
-    MplsLabelStack::new((0..n).map(|_| MplsLabel::new(rng.next_u32() & 0xfffff)).collect())
+    // 0x80000 as the first label would encode as 0x800000, the RFC 8277 §2.4
+    // withdrawal compatibility value, and make the wire-level accounting of
+    // withdrawals ambiguous: not generated in first position
+    MplsLabelStack::new(
+        (0..n)
+            .map(|i| {
+                let l = rng.next_u32() & 0xfffff;
+                MplsLabel::new(if i == 0 && l == 0x80000 { 16 } else { l })
+            })
+            .collect(),
+    )
 }
 
 fn esi(rng: &mut Rng) -> Esi {
